@@ -84,6 +84,10 @@ func (e *Engine) commuteResult(site mapRangeSite) (res *FuncResult) {
 		for _, o := range ctx.obligs {
 			if o.Kind == "commute" {
 				kept = append(kept, o)
+			} else if o.Reach != nil && o.Cond != nil && o.Cond.Op != "false" {
+				// obligations of other kinds (callee preconditions, safety) are assumed in the 2-copy execution:
+				// an assumption that cannot hold where it is made would make the commute obligations vacuous
+				res.PathCovers = append(res.PathCovers, &Oblig{Name: "cover:assumed:" + o.Name, Kind: "cover", Func: o.Func, CtxLen: o.CtxLen, Goal: Not(And(o.Reach, o.Cond)), Reach: o.Reach, Expect: "sat", ctx: ctx})
 			}
 		}
 		res.Obligs = kept
